@@ -62,6 +62,7 @@ type Prog struct {
 	addrTakenFields map[*types.Var]bool
 	paramCalls      map[*ssa.Function]map[int]bool
 	supplyCache     map[[2]any]bool
+	helperCache     map[*ssa.Function]*BF
 }
 
 func goEnv(v Variant) []string {
